@@ -68,7 +68,11 @@ class FaultMegacomplex(Megacomplex):
         labels = [f"s{i + 1}" for i in range(len(rates))]
         matrix = np.exp(-np.outer(np.asarray(model_axis, dtype=float), np.asarray(rates)))
         if fire:
-            if FAULT.kind == "exception":
+            if FAULT.kind in ("exception", "exception_swap"):
+                if FAULT.kind == "exception_swap":
+                    # a model that redirects sys.stdout (without try/finally) and fails while its own stream is installed
+                    import io
+                    sys.stdout = io.StringIO()
                 FAULT.exc = InjectedFault(f"injected fault at calculate_matrix call {FAULT.calls}")
                 raise FAULT.exc
             matrix = np.full_like(matrix, np.nan)
@@ -173,14 +177,15 @@ def fault_model(ndatasets=1, residual_function="variable_projection", link_clp=N
     return M(**spec)
 
 
-def fault_parameters(start=(0.55, 1.1)):
+def fault_parameters(start=(0.55, 1.1), nonneg=False):
     from glotaran.parameter import Parameters
-    return Parameters.from_dict({"k": [["1", start[0]], ["2", start[1]]]})
+    # nonneg: the second rate is optimised as its logarithm (the history then holds log-values that must be mapped back)
+    return Parameters.from_dict({"k": [["1", start[0]], ["2", start[1], {"non-negative": bool(nonneg)}]]})
 
 
 def fault_scheme(method="TrustRegionReflection", ndatasets=1, residual_function="variable_projection", link_clp=None,
-                 max_nfev=None, tol=1e-8, start=(0.55, 1.1)):
+                 max_nfev=None, tol=1e-8, start=(0.55, 1.1), nonneg=False):
     from glotaran.project import Scheme
-    return Scheme(model=fault_model(ndatasets, residual_function, link_clp), parameters=fault_parameters(start),
+    return Scheme(model=fault_model(ndatasets, residual_function, link_clp), parameters=fault_parameters(start, nonneg),
                   data=fault_data(ndatasets=ndatasets), optimization_method=method,
                   maximum_number_function_evaluations=max_nfev, ftol=tol, gtol=tol, xtol=tol)
